@@ -557,7 +557,7 @@ def judge_c01(r, site, starts, opts, out, rows, concurrency):
 
 # ----------------------------------------------------------------------------------------
 def gen_c02(tape, tier):
-    opts = {'robots': False, 'recursive': True}
+    opts = {'robots': tape.chance(1, 3, 'opt.robots'), 'recursive': True}
     opts['level'] = tape.choice((5, 1, 2, 'inf'), 'opt.level')
     opts['page_requisites'] = tape.chance(1, 2, 'opt.p')
     opts['no_parent'] = tape.chance(1, 3, 'opt.np')
@@ -646,7 +646,7 @@ def judge_c02(r, site, starts, opts, out, rows, own_hosts=None, phase=''):
             continue
         first = canon(e['url']) == canon(rec['url'])
         if e['target'] == '/robots.txt' and opts.get('robots'):
-            continue
+            continue        # judged below (robots.txt of an origin being visited)
         if not first and opts.get('strong_redirects', True) and failed == ['span_hosts']:
             r.probes['waiver_used'] += 1
             continue
@@ -655,6 +655,39 @@ def judge_c02(r, site, starts, opts, out, rows, own_hosts=None, phase=''):
                   '%s requested for item %s (level %r, inline %r, parent %r, tries %r) although rule(s) %r fail; options %r; own hosts %r%s'
                   % (e['url'], rec['url'], rec['level'], rec['inline_level'], rec['parent_url'], rec['try_count'], failed,
                      {k: v for k, v in opts.items() if v not in (None, False, ())}, own, phase))
+
+
+def judge_c02_robots(r, site, starts, opts, out, own_hosts=None, phase=''):
+    """The robots.txt exception covers the control file of an origin that is being visited: the item on whose behalf
+    it is fetched must have an in-scope URL (its own, or a redirect hop that was allowed) on that origin."""
+    if not opts.get('robots'):
+        return
+    server = out['server']
+    own = own_hosts if own_hosts is not None else sorted({s.origin.host for s in starts})
+    visited = {}        # item url -> set of origins with an allowed request
+    for e in server.log:
+        rec = e['rec']
+        if rec is None or e['target'] == '/robots.txt':
+            continue
+        visited.setdefault(rec['url'], set()).add(e.get('origin') or refscope.parse(canon(e['url']))['host'])
+    for e in server.log:
+        rec = e['rec']
+        if rec is None or e['target'] != '/robots.txt':
+            continue
+        origin = e.get('origin')
+        u = refscope.parse(canon(rec['url']))
+        record = {'level': rec['level'], 'inline_level': rec['inline_level'], 'try_count': rec['try_count'],
+                  'parent': refscope.parse(canon(rec['parent_url'])) if rec['parent_url'] else None,
+                  'root': refscope.parse(canon(rec['root_url'])) if rec['root_url'] else None}
+        ok, failed = refscope.passes(u, record, opts, own)
+        item_origin = (u['scheme'], u['host'], u['port'])
+        if ok and origin == item_origin:
+            continue
+        if origin in visited.get(rec['url'], ()):
+            continue
+        r.violate('C02', 'out-of-scope-request', 'robots-txt-of-origin-not-being-visited%s' % (':resumed' if phase else ''),
+                  'robots.txt of %r fetched on behalf of item %s, which is out of scope (%r) and made no allowed request to that origin%s'
+                  % (origin, rec['url'], failed, phase))
 
 
 def offered_probes(r, site, starts, opts):
@@ -745,6 +778,7 @@ def run(tape, prop, tier):
             if out.get('exception'):
                 r.violate('C02', 'crash', 'exception-escaped-app-run', out['exception'][-1200:])
             judge_c02(r, site, starts, opts, out, rows)
+            judge_c02_robots(r, site, starts, opts, out)
             offered = sum(r.probes.get(k, 0) for k in ('offered_foreign_host', 'offered_upward_path', 'offered_regex_rejected', 'offered_excluded_dir'))
             r.nontrivial = offered >= 1 and len(out['server'].log) >= 3
         r.workload = ({k: v for k, v in opts.items() if v not in (None, False, ())}, [s.url for s in starts], concurrency,
